@@ -5,7 +5,7 @@
 //! without deferred remap, optimize_indices append/merge). In every state random predicate trees
 //! are run with use_scalar_index(true), (false) and judged against the references.
 
-use crate::c16::{judge, reference, Expected, RefOutcome};
+use crate::c16::{judge, quirk_sig, reference, Expected, RefOutcome};
 use crate::core::*;
 use lance::dataset::optimize::{compact_files, CompactionOptions};
 use lance::dataset::UpdateBuilder;
@@ -97,18 +97,21 @@ pub struct IdxTable {
     pub ids: IdAlloc,
     pub version: LanceFileVersion,
     pub history: Vec<String>,
+    pub stable_row_ids: bool,
+    /// ids whose indexed column was rewritten by an UPDATE of the history
+    pub updated_ids: BTreeSet<i64>,
 }
 
 impl IdxTable {
     pub async fn append(&mut self, rng: &mut Rng, n: usize) -> Result<(), String> {
-        let b = self.spec.batch(rng, &self.ids.take(n));
+        let b = widen_lists(&self.spec.batch(rng, &self.ids.take(n)));
         self.model.insert_batch(&b);
         let p = lance::dataset::WriteParams {
             mode: lance::dataset::WriteMode::Append,
             data_storage_version: Some(self.version),
             ..Default::default()
         };
-        self.ds.append(reader_of(vec![b]), Some(p)).await.map_err(|e| format!("append: {e}"))?;
+        guarded_op("append", self.ds.append(reader_of(vec![b]), Some(p))).await?;
         self.history.push(format!("append({n})"));
         Ok(())
     }
@@ -120,7 +123,8 @@ impl IdxTable {
         let k = rng.urange(1, (all.len() / 3).max(1));
         let victims: Vec<i64> = rng.sample_indices(all.len(), k).into_iter().map(|i| all[i]).collect();
         let list = victims.iter().map(|v| v.to_string()).collect::<Vec<_>>().join(",");
-        self.ds.delete(&format!("id IN ({list})")).await.map_err(|e| format!("delete: {e}"))?;
+        let del = format!("id IN ({list})");
+        guarded_op("delete", self.ds.delete(&del)).await?;
         for v in &victims {
             self.model.rows.remove(v);
         }
@@ -148,7 +152,7 @@ impl IdxTable {
             .and_then(|b| b.set(&name, &lit.sql()))
             .and_then(|b| b.build());
         let job = res.map_err(|e| format!("update build ({name} = {}): {e}", lit.sql()))?;
-        let r = job.execute().await.map_err(|e| format!("update exec: {e}"))?;
+        let r = guarded_op("update", job.execute()).await?;
         if r.rows_updated as usize != victims.len() {
             return Err(format!("update reported {} rows, expected {}", r.rows_updated, victims.len()));
         }
@@ -156,6 +160,7 @@ impl IdxTable {
         let cell = lit_to_cell(&self.model.cols[col].ty, &lit);
         for v in &victims {
             self.model.rows.get_mut(v).unwrap()[col] = cell.clone();
+            self.updated_ids.insert(*v);
         }
         self.history.push(format!("update({k},{}={})", name, lit.sql()));
         Ok(())
@@ -168,18 +173,16 @@ impl IdxTable {
             defer_index_remap: defer,
             ..Default::default()
         };
-        match compact_files(&mut self.ds, opts, None).await {
+        match guarded(compact_files(&mut self.ds, opts, None)).await {
             Ok(m) => {
                 self.history.push(format!("compact(defer={defer},-{}+{})", m.fragments_removed, m.fragments_added));
                 Ok(())
             }
-            Err(e) => match classify_err(&e) {
-                ScanErr::Rejected(_) => {
-                    self.history.push(format!("compact(defer={defer}) rejected"));
-                    Ok(())
-                }
-                _ => Err(format!("compact(defer={defer}): {e}")),
-            },
+            Err(ScanErr::Rejected(_)) => {
+                self.history.push(format!("compact(defer={defer}) rejected"));
+                Ok(())
+            }
+            Err(e) => Err(format!("compact(defer={defer}): {e:?}")),
         }
     }
     pub async fn optimize(&mut self, rng: &mut Rng) -> Result<(), String> {
@@ -188,52 +191,101 @@ impl IdxTable {
             1 => (OptimizeOptions::merge(*rng.pick(&[1usize, 2, 10])), "merge"),
             _ => (OptimizeOptions::new(), "default"),
         };
-        self.ds.optimize_indices(&o).await.map_err(|e| format!("optimize_indices({d}): {e}"))?;
+        guarded_op(&format!("optimize_indices({d})"), self.ds.optimize_indices(&o)).await?;
         self.history.push(format!("optimize({d})"));
         Ok(())
     }
 }
 
-/// Narrow classification of an index-vs-reference deviation (see DESIGN §2.7 / §6).
-pub fn classify_index_deviation(
-    base_sig: &str,
-    got: &BTreeSet<i64>,
-    exp: &BTreeSet<i64>,
-    pred: &Pred,
-    m: &Model,
-    indexed: &[(usize, Ix)],
-) -> String {
+pub struct IdxCtx<'a> {
+    pub indexed: &'a [(usize, Ix)],
+    pub stable_row_ids: bool,
+    pub updated_ids: &'a BTreeSet<i64>,
+}
+
+/// Narrow classification of an index-vs-reference deviation (see DESIGN §2.7 / §6). A deviation
+/// can be a superposition of two defects (extra rows of one class, missing rows of another), so
+/// one signature per part is returned.
+pub fn classify_index_deviation(base_sig: &str, got: &BTreeSet<i64>, exp: &BTreeSet<i64>, pred: &Pred, m: &Model, cx: &IdxCtx) -> Vec<String> {
     let (extra, missing) = set_diff(got, exp);
-    if !extra.is_empty() && missing.is_empty() {
-        let mut neg = vec![];
-        pred.negated_leaves(true, &mut neg);
-        // indexed columns that occur under a negated leaf and in which *every* extra row is NULL
-        let mut kinds = BTreeSet::new();
-        for (kind, col) in &neg {
-            if indexed.iter().any(|(c, ix)| c == col && *ix != Ix::LabelList) {
-                kinds.insert((*kind, *col));
-            }
-        }
-        if !kinds.is_empty() {
-            let all_null_somewhere = extra.iter().all(|id| {
+    let indexed = cx.indexed;
+    // (2) `x < a AND x >= b` / `x <= a AND x > b` (upper bound first): maybe_range swaps the
+    //     inclusiveness of the two bounds; every deviating row sits exactly on one of the bounds.
+    {
+        let mut rs = vec![];
+        pred.nnf(true).upper_first_mixed_ranges(&mut rs);
+        let rs: Vec<_> = rs.into_iter().filter(|(c, _, _)| indexed.iter().any(|(ic, ix)| ic == c && *ix != Ix::LabelList)).collect();
+        if !rs.is_empty() {
+            let on_bound = |id: &i64| {
                 let r = &m.rows[id];
-                kinds.iter().any(|(_, c)| r[*c].is_null())
-            });
-            if all_null_somewhere {
-                // keep only the kinds whose column is NULL in at least one extra row
-                let ks: BTreeSet<&str> = kinds
-                    .iter()
-                    .filter(|(_, c)| extra.iter().any(|id| m.rows[id][*c].is_null()))
-                    .map(|(k, _)| *k)
-                    .collect();
-                return format!(
-                    "index-extra-rows-all-null-in-indexed-col-under-negated-{}",
-                    ks.into_iter().collect::<Vec<_>>().join("+")
-                );
+                rs.iter().any(|(c, a, b)| {
+                    let ty = &m.cols[*c].ty;
+                    cmp_cell_lit(ty, &r[*c], a) == Some(std::cmp::Ordering::Equal)
+                        || cmp_cell_lit(ty, &r[*c], b) == Some(std::cmp::Ordering::Equal)
+                })
+            };
+            if extra.iter().chain(missing.iter()).all(on_bound) {
+                return vec!["index-range-upper-bound-first-inclusiveness-swapped".into()];
             }
         }
     }
-    format!("index-{base_sig}")
+    let mut sigs = vec![];
+    let mut extra_done = extra.is_empty();
+    let mut missing_done = missing.is_empty();
+    // (1) NOT over an exact index result ignores NULLs: extra rows, each NULL in an indexed column
+    //     that occurs under a negated equality / IN / boolean-column / array_has leaf (the leaf
+    //     kinds that survive DataFusion's simplifier as NOT(index query)); any comparison of a
+    //     boolean column counts (`b = false` is simplified to `NOT b`).
+    if !extra.is_empty() {
+        let mut neg = vec![];
+        pred.negated_leaves(true, &mut neg);
+        let mut cands: BTreeSet<(&str, usize)> = neg
+            .iter()
+            .filter(|(k, c)| matches!(*k, "eq" | "in" | "bool" | "array_has") && indexed.iter().any(|(ic, _)| ic == c))
+            .map(|(k, c)| (*k, *c))
+            .collect();
+        let mut cols = BTreeSet::new();
+        pred.columns(&mut cols);
+        for c in cols {
+            if m.cols[c].ty == ColTy::Bool && indexed.iter().any(|(ic, _)| *ic == c) {
+                cands.insert(("bool", c));
+            }
+        }
+        if !cands.is_empty() && extra.iter().all(|id| cands.iter().any(|(_, c)| m.rows[id][*c].is_null())) {
+            let used: BTreeSet<&str> =
+                cands.iter().filter(|(_, c)| extra.iter().any(|id| m.rows[id][*c].is_null())).map(|(k, _)| *k).collect();
+            let kind = if used.contains("eq") || used.contains("in") {
+                "eq-or-in"
+            } else if used.contains("bool") {
+                "bool-column"
+            } else {
+                "array-has"
+            };
+            sigs.push(format!("index-extra-rows-all-null-in-indexed-col-under-negated-{kind}"));
+            extra_done = true;
+        }
+    }
+    // (3) stable row ids: an UPDATE keeps the row id, the old index entry stays and contradicts the
+    //     new value; every deviating row was updated by the history.
+    if cx.stable_row_ids && !cx.updated_ids.is_empty() {
+        if !extra_done && extra.iter().all(|id| cx.updated_ids.contains(id)) {
+            sigs.push("index-stale-entry-after-update-with-stable-row-ids-extra".into());
+            extra_done = true;
+        }
+        if !missing_done && missing.iter().all(|id| cx.updated_ids.contains(id)) {
+            sigs.push("index-stale-entry-after-update-with-stable-row-ids-missing".into());
+            missing_done = true;
+        }
+    }
+    if !extra_done || !missing_done {
+        sigs.push(format!("index-{base_sig}"));
+    }
+    sigs
+}
+
+pub const DEFER_REMAP_SIG: &str = "deferred-remap-compaction-groups-indexed-with-unindexed-fragments-then-panics";
+pub fn is_defer_remap_panic(e: &str) -> bool {
+    e.contains("split of indexed and non-indexed data")
 }
 
 fn index_types_for(ty: &ColTy) -> Vec<Ix> {
@@ -295,7 +347,8 @@ pub fn run(args: &Args) -> i32 {
             let mut model = Model::new(&spec);
             let mut frags = vec![];
             for _ in 0..nfrag {
-                let b = spec.batch(&mut rng, &ids.take((total / nfrag).max(1)));
+                let b = widen_lists(&spec.batch(&mut rng, &ids.take((total / nfrag).max(1))));
+                model.schema = b.schema();
                 model.insert_batch(&b);
                 frags.push(b);
             }
@@ -307,7 +360,7 @@ pub fn run(args: &Args) -> i32 {
                     return;
                 }
             };
-            let mut t = IdxTable { ds, model, spec: spec.clone(), ids, version, history: vec![] };
+            let mut t = IdxTable { ds, model, spec: spec.clone(), ids, version, history: vec![], stable_row_ids: stable, updated_ids: BTreeSet::new() };
             // ---- indices
             let mut indexed: Vec<(usize, Ix)> = vec![];
             let (it, ip) = ix.params();
@@ -366,6 +419,14 @@ pub fn run(args: &Args) -> i32 {
                         }
                     };
                     if let Err(e) = r {
+                        if is_defer_remap_panic(&e) && t.history.iter().any(|h| h.starts_with("compact(defer=true")) || (is_defer_remap_panic(&e) && e.starts_with("compact(defer=true")) {
+                            report.violation(
+                                DEFER_REMAP_SIG,
+                                &format!("operation after/with deferred-remap compaction panics: {}", e.chars().take(200).collect::<String>()),
+                                json!({"seed": args.seed, "case": case, "table": table_desc, "history": t.history, "error": e}),
+                            );
+                            return;
+                        }
                         // a failing maintenance operation on a valid table is not this property's
                         // subject, but it must not pass silently
                         report.count("history_op_failed", 1);
@@ -423,6 +484,8 @@ pub fn run(args: &Args) -> i32 {
                         Err(_) => false,
                     };
                     let mut executed = false;
+                    // (signature, result size) of a deviation of the plain indexed scan, to classify count_rows alike
+                    let mut last_index_sig: Option<(String, usize)> = None;
                     // indexed run (+ one random knob combination on top)
                     let mut k_rand = Knobs::random(&mut rng);
                     k_rand.use_scalar_index = Some(true);
@@ -443,21 +506,31 @@ pub fn run(args: &Args) -> i32 {
                                 }
                                 if let Some(v) = judge(&out, &exp, m) {
                                     let got: BTreeSet<i64> = out.ids().into_iter().collect();
-                                    let sig = if label == "noindex" {
+                                    let sig = if let Some(qs) = quirk_sig(&got, &ids_exp, &pred, &sql, m, &df).await {
+                                        // not an index matter: the same (DataFusion) rewrite hits every path
+                                        qs.to_string()
+                                    } else if label == "noindex" {
                                         format!("noindex-{}", v.sig)
                                     } else {
-                                        classify_index_deviation(&v.sig, &got, &ids_exp, &pred, m, &indexed)
+                                        let cx = IdxCtx { indexed: &indexed, stable_row_ids: t.stable_row_ids, updated_ids: &t.updated_ids };
+                                        classify_index_deviation(&v.sig, &got, &ids_exp, &pred, m, &cx).join("+")
                                     };
+                                    if label == "index" {
+                                        last_index_sig = Some((sig.clone(), got.len()));
+                                    }
                                     let (extra, missing) = set_diff(&got, &ids_exp);
                                     let show = |ids: &[i64]| -> Vec<String> {
                                         ids.iter().take(5).map(|i| m.rows.get(i).map(|r| vmon::table::render_row(r)).unwrap_or_default()).collect()
                                     };
+                                    for (si, one) in sig.split('+').enumerate() {
+                                      if si > 0 { report.count("superposed_deviation_parts", 1); }
                                     report.violation(
-                                        &sig,
+                                        one,
                                         &format!("{label}: {} (plan uses index: {uses_index})", v.what),
                                         witness(label, json!({"knobs": knobs.describe(), "detail": v.detail, "extra_rows": show(&extra), "missing_rows": show(&missing),
                                             "plan": plan.as_ref().map(|p| p.chars().take(600).collect::<String>()).unwrap_or_default()})),
                                     );
+                                    }
                                 }
                             }
                             Err(ScanErr::Rejected(e)) => {
@@ -471,8 +544,15 @@ pub fn run(args: &Args) -> i32 {
                             }
                             Err(ScanErr::Failed(e)) => {
                                 if !selftest {
+                                    let sig = if e.contains("range start is greater than range end") && label != "noindex" && indexed.iter().any(|(_, ix)| *ix == Ix::Bitmap) {
+                                        "bitmap-index-inverted-range-panics".to_string()
+                                    } else if is_defer_remap_panic(&e) && t.history.iter().any(|h| h.starts_with("compact(defer=true")) {
+                                        DEFER_REMAP_SIG.to_string()
+                                    } else {
+                                        format!("{}-scan-failed", if label == "noindex" { "noindex" } else { "index" })
+                                    };
                                     report.violation(
-                                        &format!("{}-scan-failed", if label == "noindex" { "noindex" } else { "index" }),
+                                        &sig,
                                         &format!("{label}: {}", e.chars().take(300).collect::<String>()),
                                         witness(label, json!({"error": e, "knobs": knobs.describe()})),
                                     );
@@ -485,15 +565,28 @@ pub fn run(args: &Args) -> i32 {
                         match run_count(&t.ds, &q, &k_idx).await {
                             Ok(n) => {
                                 if n as usize != ids_exp.len() {
+                                    // classify like the scan: the count must equal the size of the indexed scan's result
+                                    let sig = if last_index_sig.as_ref().map(|(_, len)| *len == n as usize).unwrap_or(false) {
+                                        last_index_sig.as_ref().unwrap().0.clone()
+                                    } else {
+                                        "index-count-rows-differs".to_string()
+                                    };
                                     report.violation(
-                                        "index-count-rows-differs",
+                                        &sig,
                                         &format!("count_rows with index = {n}, reference = {}", ids_exp.len()),
                                         witness("count", json!({"count": n, "expected": ids_exp.len()})),
                                     );
                                 }
                             }
                             Err(ScanErr::Failed(e)) => {
-                                report.violation("index-count-rows-failed", &e.chars().take(300).collect::<String>(), witness("count", json!({"error": e})));
+                                let sig = if e.contains("range start is greater than range end") && indexed.iter().any(|(_, ix)| *ix == Ix::Bitmap) {
+                                    "bitmap-index-inverted-range-panics"
+                                } else if is_defer_remap_panic(&e) && t.history.iter().any(|h| h.starts_with("compact(defer=true")) {
+                                    DEFER_REMAP_SIG
+                                } else {
+                                    "index-count-rows-failed"
+                                };
+                                report.violation(sig, &e.chars().take(300).collect::<String>(), witness("count", json!({"error": e})));
                             }
                             _ => {}
                         }
@@ -512,7 +605,8 @@ pub fn run(args: &Args) -> i32 {
                     }
                     let shape = format!("{}|{:?}|{}|{}", ix.name(), xty, state_kind, pred.shape(&m.cols));
                     report.case(if nontrivial { Some(fnv_str(&shape)) } else { None });
-                    if nontrivial && report.want_sample() && rng.chance(1, 60) {
+                    let pick_sample = rng.chance(1, 60); // drawn unconditionally: replay determinism
+                    if nontrivial && pick_sample && report.want_sample() {
                         report.sample(json!({"table": table_desc, "history": t.history, "filter": sql, "matching": ids_exp.len(), "rows": m.len(),
                             "plan": plan.as_ref().map(|p| p.lines().take(4).collect::<Vec<_>>().join(" / ")).unwrap_or_default()}));
                     }
